@@ -90,8 +90,9 @@ def _typestate(ctx):
         def reacquired(edge):
             return edge.kind == 'true' and any(
                 K.is_meth(c, 'acquire_identity') and
-                N.txt(K.recv(c)) == var for c in K.calls(edge.src.ast)
-                if edge.src.ast is not None) if edge.src.kind == 'test' \
+                N.txt(K.recv(c)) == var
+                for c in K.test_calls(loop.func, edge.src)) \
+                if edge.src.kind == 'test' \
                 else False
         goals = [n for n in loop.body() if placing(n)]
         path = K.find_path_cp(graph, rnode, goals,
@@ -475,6 +476,8 @@ def _pool_ops(ctx, func):
 
 def _range_args(func, expr):
     """set(range(a, b)) / set(xrange(a, b)) -> (a_text, b_text)."""
+    if isinstance(expr, ast.Name):
+        expr = K.rexpr(func, expr)      # the set kept in a local first
     inner = expr
     if isinstance(expr, ast.Call) and K.callee_text(expr) in ('set',
                                                               'frozenset') \
@@ -533,13 +536,7 @@ def _publication(ctx):
 
 def _resolve_local(func, expr):
     """Text of expr with a local name replaced by its unique assignment."""
-    if isinstance(expr, ast.Name):
-        defs = [s for s in K.walk_no_nested(func.node)
-                if isinstance(s, ast.Assign) and len(s.targets) == 1 and
-                N.txt(s.targets[0]) == expr.id]
-        if len(defs) == 1:
-            return N.txt(defs[0].value)
-    return N.txt(expr)
+    return K.rtxt(func, expr)
 
 
 def _group_removal(ctx):
